@@ -191,6 +191,66 @@ def gen_pacing(rng, heavy):
     return wire, budget, cap
 
 
+TCHARS = b"abcdefghijklmnopqrstuvwxyz0123456789!#$%&'*+-.^_`|~"
+
+
+def rand_name(rng):
+    return b'x-' + bytes(rng.choice(TCHARS) for _ in range(rng.randint(1, 24)))
+
+
+def rand_value(rng, n):
+    style = rng.random()
+    if style < 0.5:
+        alpha = b'abcdefghijklmnopqrstuvwxyzABCDEFGHIJKLMNOPQRSTUVWXYZ0123456789 ,;=/-_.'
+    elif style < 0.8:
+        alpha = bytes([9] + list(range(32, 127)))
+    else:
+        alpha = bytes(list(range(32, 127)) + list(range(128, 256)))
+    return bytes(rng.choice(alpha) for _ in range(n))
+
+
+def gen_bigsec(rng, quick):
+    """a field section of 8..64 KiB (RFC 9114 4.2.2 measure) in the request head, the response head or a trailer section:
+    either 100..400 field lines, or a few values of 1..40 KiB; h3's own default limits (lim=h,h) most of the time"""
+    where = rng.choice(['q', 'r', 'qt', 'rt'])
+    if rng.random() < 0.5:
+        target = rng.randint(8, 18 if quick else 64) * 1024
+        fs, size = [], 0
+        names = [rand_name(rng) for _ in range(rng.randint(3, 60))]
+        while size < target:
+            n, v = rng.choice(names), rand_value(rng, rng.randint(0, 200))
+            fs.append((n, v))
+            size += len(n) + len(v) + 32
+    else:
+        fs = [(rand_name(rng), rand_value(rng, rng.choice([1024, 4096, 16300, 16384, 17000, 30000, 40960])))
+              for _ in range(rng.randint(1, 3))]
+        while section_size(fs) > 62 * 1024:
+            fs.pop()
+        fs += [(rand_name(rng), rand_value(rng, rng.randint(0, 50))) for _ in range(rng.randint(0, 5))]
+        if section_size(fs) < 8192:
+            fs.append((rand_name(rng), rand_value(rng, 9000)))
+    big = show_fields(fs)
+    small = show_fields(gen_fields(rng, 3))
+    body = rng.choice(['n', 'g%ds%d' % (rng.randint(1, 2000), rng.randint(0, 999999))])
+    msg = '%s,%s,%s,%s,%s,%s,%s' % (hx(b'POST'), hx(b'https'), hx(b'big.example'), hx(b'/big'),
+                                    big if where == 'q' else small, body, big if where == 'qt' else 'n')
+    resp = '200,%s,%s,%s' % (big if where == 'r' else small, body, big if where == 'rt' else 'n')
+    line = 'e2e msg=%s resp=%s wire=%s budget=%s sched=%s split=%s,%s' % (
+        msg, resp, rng.choice(['big', 'r1500', 'r20000', 'f7']), rng.choice(['u', 'u', 'r1200', 'r30000']),
+        rng.choice('xxwu') + str(rng.randint(0, 10 ** 6)), gen_split(rng), gen_split(rng))
+    r = rng.random()
+    if r < 0.6:
+        line += ' lim=h,h'
+    elif r < 0.8:
+        sz = section_size(fs) + 400
+        line += ' lim=%d,%d' % (sz, sz)
+    if rng.random() < 0.3:
+        line += ' plain=1'
+    if rng.random() < 0.5:
+        line += ' seg=%d' % rng.randint(1, 10 ** 6)
+    return line
+
+
 def gen_case(rng, tier, heavy):
     wire, budget, cap = gen_pacing(rng, heavy)
     msg, resp, qsize, rsize, proto = gen_exchange(rng, cap)
@@ -208,11 +268,20 @@ def gen_case(rng, tier, heavy):
         ifields = gen_fields(rng, 4)
         rsize = max(rsize, section_size([(b':status', b'103')] + ifields))
         line += ' interim=%d,%s' % (rng.choice([100, 102, 103, 103, 199]), show_fields(ifields))
-    if rng.random() < 0.25:
+    if rng.random() < 0.3:
+        line += ' drv=idle'        # the client driver is `wait_idle()` instead of a poll_close loop
+    if rng.random() < 0.15:
+        line += ' fz=%d' % rng.randint(1, 4)   # the transport answers poll_finish with Pending a few times
+    r = rng.random()
+    if r < 0.2:
+        line += ' plain=1'         # client::new / server::Connection::new: no builder setter is called
+    elif r < 0.4:
+        line += ' lim=h,h'         # h3's own default limits
+    elif r < 0.6:
         # non-default limits on the field-section size each side announces and enforces: at or above what is sent
         d = lambda: rng.choice([0, 0, 1, 57, 4096])
-        line += ' lim=%s,%s' % (rng.choice(['d', str(rsize + d()), str(rsize + d())]),
-                                rng.choice(['d', str(qsize + d()), str(qsize + d())]))
+        line += ' lim=%s,%s' % (rng.choice(['d', 'h', str(rsize + d()), str(rsize + d())]),
+                                rng.choice(['d', 'h', str(qsize + d()), str(qsize + d())]))
     return line
 
 
@@ -247,13 +316,17 @@ def gen_multi(rng):
         line += ' grease=1'
     if rng.random() < 0.5:
         line += ' seg=%d' % rng.randint(1, 10 ** 6)
+    if rng.random() < 0.3:
+        line += ' drv=idle'
+    if rng.random() < 0.2:
+        line += ' plain=1'
     return line
 
 
 class P(Property):
     id = 'C01'
     gen_modules = ['gen_varint', 'gen_codes', 'gen_headers', 'gen_datagram', 'gen_writers', 'gen_frames', 'gen_reqstream',
-                   'gen_static', 'gen_qstateless', 'gen_prefixint', 'gen_huffman', 'gen_huffman_enc', 'gen_split', 'gen_buflist']
+                   'gen_static', 'gen_qstateless', 'gen_prefixint', 'gen_huffman', 'gen_huffman_enc', 'gen_split', 'gen_buflist', 'gen_msgpath']
     properties_v = 'Properties/C01.v'
     model_targets = ['Model/EndToEndH3.vo', 'Model/EndToEndRef.vo', 'Spec/EndToEndSpec.vo']
     extract_v = 'Extract/ExtractC01.v'
@@ -271,7 +344,10 @@ class P(Property):
             'exact / larger field-section limits x optional 1xx interim response x extended CONNECT (:protocol); family multi: '
             '1..3 exchanges on one connection through the original, cloned and early-dropped SendRequest handles, sequential '
             'and overlapping, run to quiescence (a driver or accept loop that ended is an error); 6 heavy cases per run '
-            '(20..64 KiB bodies under byte-wise wire/budget) drawn afresh on every run. non-trivial = distinct cases whose exchange completed '
+            '(20..64 KiB bodies under byte-wise wire/budget) drawn afresh on every run; family bigsec: field sections of '
+            '8..64 KiB (100..400 lines, or values of 1..40 KiB) in request head, response head or a trailer section, mostly '
+            'under h3 default limits; options: lim=h (limit setter not called), plain=1 (no builder setter; server through '
+            'Connection::new), drv=idle (client driven by wait_idle()), fz=n (poll_finish Pending n times). non-trivial = distinct cases whose exchange completed '
             'and carried at least one field, body byte or trailer in some direction')
     partial_note = ('C01_request_fidelity / C01_response_fidelity are closed and every layer of their pipeline is the model of h3 code '
                     'owned by another property (C12 header mapping, C11 stateless QPACK, C14 writers, C02+C03 FrameStream and '
@@ -292,7 +368,7 @@ class P(Property):
 
     def cases(self, tier, rng):
         out = []
-        n = 1000 if tier == 'quick' else 100000
+        n = 800 if tier == 'quick' else 100000
         for i in range(n):
             out.append(gen_case(rng, tier, heavy=(tier != 'quick' and i % 50 == 0)))
         for i in range(220 if tier == 'quick' else 20000):
@@ -302,6 +378,8 @@ class P(Property):
         hr = __import__('random').Random(int.from_bytes(os.urandom(8), 'big'))
         for i in range(6 if tier == 'quick' else 300):
             out.append(gen_heavy(hr))
+        for i in range(8 if tier == 'quick' else 2000):
+            out.append(gen_bigsec(rng if i % 2 else hr, tier == 'quick'))
         return out
 
     def canon(self, case, out):
